@@ -207,7 +207,8 @@ def rsTz (cs : List Char) : Except Kind (Option Int × List Char) :=
       match exactN .rust 2 0 r with
       | none => .error .valueError
       | some (hh, r1) =>
-        if (optChar ':' r1).2.isEmpty then rsTzFin (c = '-') hh 0 []
+        if r1.isEmpty then rsTzFin (c = '-') hh 0 []
+        else if (optChar ':' r1).2.isEmpty then .error .valueError
         else
           match exactN .rust 2 0 (optChar ':' r1).2 with
           | none => .error .valueError
@@ -540,6 +541,7 @@ def pyDateFields : PyD → Except Kind (Int × Int × Int × Bool)
   | .week y wsep w wdsep wd =>
     if wsep = true ∧ wdsep = false ∧ wd.isSome then .error .parserError else
     if wsep = false ∧ wdsep = true then .error .parserError else
+    if wdsep = true ∧ wd.isNone then .error .parserError else
     match pyWeek y w wd with
     | .error _ => .error .parserError
     | .ok (yy, m, d) => .ok (yy, m, d, false)
@@ -602,7 +604,8 @@ def parseIso : Backend → List Char → R
 
 /-! ## `_parse_common` (regex `COMMON`) — fallback of `parse()` -/
 
-/-- `( ?\d{1,2}:(\d{1,2})?(?::(\d{1,2}))?([.|,]\d{1,9})?)$` → (hour, minute?, second?, frac?) -/
+/-- `( ?\d{1,2}:(\d{1,2})(?::(\d{1,2}))?([.,]\d{1,9})?)$` → (hour, minute?, second?, frac?); the minute group is mandatory
+    since the repair of F3 (`parse("2:")` raised TypeError); `cmBuild` keeps the `int(None)` branch of the code -/
 def cmTimeMatch (cs : List Char) : Option (Nat × Option Nat × Option Nat × Option (List Nat)) :=
   let r0 := (optChar ' ' cs).2
   let a := up2 .py r0
@@ -610,6 +613,7 @@ def cmTimeMatch (cs : List Char) : Option (Nat × Option Nat × Option Nat × Op
   match a.2.2 with
   | ':' :: r2 =>
     let m := up2 .py r2
+    if m.1 = 0 then none else
     let sec : Option (Option Nat × List Char) :=
       match m.2.2 with
       | ':' :: r4 => if (up2 .py r4).1 = 0 then none else some (some (up2 .py r4).2.1, (up2 .py r4).2.2)
@@ -620,7 +624,7 @@ def cmTimeMatch (cs : List Char) : Option (Nat × Option Nat × Option Nat × Op
       match r5 with
       | [] => some (a.2.1, optNum m.1 m.2.1, s, none)
       | c :: r6 =>
-        if c = '.' ∨ c = '|' ∨ c = ',' then
+        if c = '.' ∨ c = ',' then
           if 1 ≤ (spanD .py r6).1.length ∧ (spanD .py r6).1.length ≤ 9 ∧ (spanD .py r6).2.isEmpty
           then some (a.2.1, optNum m.1 m.2.1, s, some (spanD .py r6).1) else none
         else none
@@ -689,11 +693,15 @@ def parseChain (b : Backend) (cs : List Char) : R :=
     | .error e => .error e
 
 /-- `_normalize` + `parser._parse`: `tz` = offset (seconds) of the `tz` option when it is a fixed offset,
-    default UTC; `now` = the date used for bare times when `exact` is false -/
+    default UTC; `now` = the date used for bare times when `exact` is false. An aware datetime goes through
+    `DateTime.instance`, whose `dt.utcoffset()` raises ValueError for an offset of 24 h or more. -/
 def wrap (exact : Bool) (tz : Option Int) (now : Int × Int × Int) (v : Value) : R :=
   let dflt : Int := tz.getD 0
   match v.kind with
-  | .datetime => .ok { v with off := some (v.off.getD dflt) }
+  | .datetime =>
+    match v.off with
+    | some o => if -86400 < o ∧ o < 86400 then .ok v else .error .valueError
+    | none => .ok { v with off := some dflt }
   | .date => if exact then .ok v else .ok { v with kind := .datetime, off := some dflt }
   | .time =>
     if exact then .ok { v with off := none }
